@@ -27,12 +27,16 @@ class FakeDF:
 def rule_text(k: int, shape: str) -> str:
     if shape == "atom":
         return f"l.p{k} = r.p{k}"
+    if shape == "and":  # a compound equi-join rule (what a multi-column block_on produces)
+        return f"l.p{k} = r.p{k} AND l.q{k} = r.q{k}"
     return f"l.p{k} = r.p{k} OR l.q{k} = r.q{k}"
 
 
 def rule_bexp(k: int, shape: str) -> str:
     if shape == "atom":
         return f"(BAtom {2*k})"
+    if shape == "and":
+        return f"(BAnd (BAtom {2*k}) (BAtom {2*k+1}))"
     return f"(BOr (BAtom {2*k}) (BAtom {2*k+1}))"
 
 
@@ -218,8 +222,10 @@ def configs(tier: str, rng):
     lts = list(LINK_TYPES)
     for n in range(0, 4):
         for kinds in itertools.product(KINDS, repeat=n):
-            for shape in ("atom", "or"):
-                if n == 0 and shape == "or":
+            for shape in ("atom", "or", "and"):
+                if n == 0 and shape != "atom":
+                    continue
+                if shape == "and" and n == 3 and tier != "thorough" and rng.random() < 0.6:
                     continue
                 # rotate link types to bound the number of obligations; every (kinds, shape)
                 # gets two link types in quick and all four in thorough
@@ -229,7 +235,7 @@ def configs(tier: str, rng):
     all4 = list(itertools.product(KINDS, repeat=4))
     pick = all4 if tier == "thorough" else rng.sample(all4, 24)
     for kinds in pick:
-        shapes = tuple(rng.choice(("atom", "or")) for _ in range(4))
+        shapes = tuple(rng.choice(("atom", "or", "and")) for _ in range(4))
         for lt in (lts if tier == "thorough" else [rng.choice(lts)]):
             out.append((kinds, shapes, lt))
     return out
